@@ -81,7 +81,10 @@ def check_one(ctx, w, cfg, steps):
             ctx.coverage.setdefault("input_histogram", {}).get("single push ends with an error: not compared", 0) + 1
         return [], single
     a, b = no_backups(single), no_backups(multi[-1])
-    if a != b:
+    if a != b and only_kept_empty_dirs(w, a, b):
+        # known finding empty-directory-kept: reported by the caller, which sees the tag
+        probs.append(EMPTY_DIR_TAG)
+    elif a != b:
         probs.append("split %s differs from the single push: only single %s, only split %s" % (
             [(g, t) for g, t in steps], [x[:100] for x in a if x not in b][:3], [x[:100] for x in b if x not in a][:3]))
     # the same push again: exit status as before, nothing changes (backups of a failed push may be rewritten
@@ -98,6 +101,33 @@ def check_one(ctx, w, cfg, steps):
                 probs.append("pushing again after the failed push gave a different result: %s / %s" % (
                 [z[:100] for z in x if z not in y][:3], [z[:100] for z in y if z not in x][:3]))
     return probs, single
+
+
+EMPTY_DIR_TAG = "known:empty-directory-kept"
+
+
+def only_kept_empty_dirs(w, single_entries, split_entries):
+    """known finding empty-directory-kept, by its state: the two listings differ ONLY in directories that the single
+    push left and the split pushes removed, and each of them was there when the push started without any file below
+    it (an empty directory, or one holding only empty directories): the series created files in it and deleted them
+    again - one push never writes them and has no reason to look at the directory, split pushes write them, delete
+    them and clean the directory that became empty"""
+    only_single = [x for x in single_entries if x not in split_entries]
+    only_split = [x for x in split_entries if x not in single_entries]
+    if only_split or not only_single:
+        return False
+    start_files = [os.path.normpath(k) for k in w["files"]]
+    start_dirs = [os.path.normpath(d) for d in w.get("dirs", [])]
+    for e in only_single:
+        f = e.split()
+        if f[0] != "D":
+            return False
+        path = b"/".join(bytes.fromhex(c) for c in f[1].split("/"))
+        if any(k == path or k.startswith(path + b"/") for k in start_files):
+            return False          # a file was below it at the start: not this class
+        if not any(d == path or d.startswith(path + b"/") for d in start_dirs):
+            return False          # the directory was not there at the start
+    return True
 
 
 def nonl_midfile_model(ctx, w, cfg):
@@ -159,7 +189,12 @@ def corpus():
     w4 = {"files": {b"f": (b"a\nx", 0o644)}, "dirs": [], "applied": None, "series": b"p1.patch\np2.patch\n",
           "patches": {b"p1.patch": b"--- a/f\n+++ b/f\n@@ -2,0 +3 @@\n+new\n",
                       b"p2.patch": b"--- a/f\n+++ b/f\n@@ -3 +3 @@\n-new\n+NEW\n"}}
-    return [(w4, dict(base), [(("C", 1), 1), (("A",), 1)]),
+    # known finding empty-directory-kept: d is there and empty; p1 creates d/x, p2 deletes it again
+    w5 = {"files": {b"g": (b"keep\n", 0o644)}, "dirs": [b"d"], "applied": None, "series": b"p1.patch\np2.patch\n",
+          "patches": {b"p1.patch": b"--- /dev/null\n+++ b/d/x\n@@ -0,0 +1 @@\n+hello\n",
+                      b"p2.patch": b"--- a/d/x\n+++ /dev/null\n@@ -1 +0,0 @@\n-hello\n"}}
+    return [(w5, dict(base), [(("C", 1), 1), (("A",), 1)]),
+            (w4, dict(base), [(("C", 1), 1), (("A",), 1)]),
             (w, dict(base), [(("C", 1), 1), (("A",), 1)]), (w2, dict(base), [(("C", 1), 1), (("A",), 1)]),
             (w3, dict(base), [(("C", 1), 1), (("A",), 1)])]
 
@@ -204,6 +239,11 @@ def run(ctx):
         c1["threads"] = 1
         cases.append((w, c1))
         singles.append(single)
+        if EMPTY_DIR_TAG in probs:
+            ctx.known_finding("empty-directory-kept: a directory that is there and empty when the push starts, in which the series creates "
+                              "a file and later deletes it again, stays after one push (the file is never written, nothing looks at the "
+                              "directory) and is removed by split pushes (the file is written, deleted, and the emptied directory cleaned)")
+            probs = [p for p in probs if p != EMPTY_DIR_TAG]
         if probs and (nonl_midfile(w) or nonl_midfile_model(ctx, w, cfg)):
             ctx.known_finding("no-newline-midfile: an application leaves a line without newline before the end of the in-memory file (a marker "
                               "on a hunk line that further lines of the same side follow, or lines added behind a last line that lacks its "
@@ -252,6 +292,8 @@ def model_composes(ctx, cases):
         a, b = l3gen.strip_err(m_single).split(" | "), l3gen.strip_err(m2).split(" | ")
         if a != b and (nonl_midfile(w) or nonl_midfile_model(ctx, w, cfg)):
             continue          # known finding no-newline-midfile (reported by the run on the binary above)
+        if a != b and only_kept_empty_dirs(w, a[1:], b[1:]) and a[0] == b[0]:
+            continue          # known finding empty-directory-kept (the model shows it as the binary does)
         if a != b:
             ctx.violation({"kind": "model-does-not-compose", "workspace": l3common.ws_json(w), "only_single": [x[:120] for x in a if x not in b][:4],
                            "only_split": [x[:120] for x in b if x not in a][:4]}, no_input=True)
